@@ -120,6 +120,53 @@ package store
 //@
 //@ # changeHandler: which event announces a store mutation must agree with what get serves:
 //@ # a resource without a stored value is still served when a default value is configured
+//@ # ---- get: what a fresh get serves (the representation changeHandler diffs against)
+//@ # gresp: responses given to the get request; gkind: the last one (1 model, 2 collection, 3 error, 4 not found); gval: the value served
+//@ # rtopen: read transactions open; rtval / trout: what the transaction and the transformer returned last
+//@ ghostvar gresp int
+//@ ghostvar gkind int
+//@ ghostvar gval iface
+//@ ghostvar rtopen int
+//@ ghostvar rtval iface
+//@ ghostvar trout iface
+//@ trusted func (r res.GetRequest) ResourceName() (s string)
+//@   ensures true
+//@ trusted func (r res.GetRequest) PathParams() (m map[string]string)
+//@   ensures true
+//@ trusted func (r res.GetRequest) NotFound()
+//@   modifies ghost.gresp, ghost.gkind
+//@   ensures gresp == old(gresp) + 1 && gkind == 4
+//@ trusted func (r res.GetRequest) Error(err error)
+//@   modifies ghost.gresp, ghost.gkind
+//@   ensures gresp == old(gresp) + 1 && gkind == 3
+//@ trusted func (r res.GetRequest) Model(model interface{})
+//@   modifies ghost.gresp, ghost.gkind, ghost.gval
+//@   ensures gresp == old(gresp) + 1 && gkind == 1 && same(gval, model)
+//@ trusted func (r res.GetRequest) Collection(collection interface{})
+//@   modifies ghost.gresp, ghost.gkind, ghost.gval
+//@   ensures gresp == old(gresp) + 1 && gkind == 2 && same(gval, collection)
+//@ trusted func (st Store) Read(id string) (txn ReadTxn)
+//@   modifies ghost.rtopen, alloc
+//@   ensures !isNil(txn) && rtopen == old(rtopen) + 1
+//@ trusted func (txn ReadTxn) Close() (err error)
+//@   modifies ghost.rtopen
+//@   ensures rtopen == old(rtopen) - 1
+//@ trusted func (txn ReadTxn) Value() (v interface{}, err error)
+//@   modifies alloc
+//@   ensures imp(isNil(err), !isNil(v))
+//@ func (o *storeHandler) getResource(r res.GetRequest)
+//@   requires o != nil && !isNil(r) && !isNil(o.st)
+//@   modifies ghost.gresp, ghost.gkind, ghost.gval, ghost.rtopen, ghost.rtval, ghost.trout, alloc
+//@   ghost call ReadTxn.Value#1 after :: set rtval = arg_v
+//@   ghost call Transformer.Transform#1 after :: set trout = arg_out
+//@   # exactly one response, and the read transaction is closed on every path
+//@   ensures once: gresp == old(gresp) + 1
+//@   ensures closed: rtopen == old(rtopen)
+//@   # a missing value is served as the default as it is (with or without a transformer); a stored value is served
+//@   # through the transformer when there is one, unchanged otherwise; the resource type selects model or collection
+//@   ghost call GetRequest.Model#1 before :: assert served: ite(!isNil(err), ref(o.def) != 0 && typeIs(arg_model, "json.RawMessage") && same(unbox(arg_model, "json.RawMessage"), o.def), ite(isNil(o.trans), same(arg_model, rtval), same(arg_model, trout)))
+//@   ghost call GetRequest.Collection#1 before :: assert served: ite(!isNil(err), ref(o.def) != 0 && typeIs(arg_collection, "json.RawMessage") && same(unbox(arg_collection, "json.RawMessage"), o.def), ite(isNil(o.trans), same(arg_collection, rtval), same(arg_collection, trout)))
+//@   ensures kind: imp(gkind == 1, o.typ == 1) && imp(gkind == 2, o.typ == 2)
 //@ func (o *storeHandler) changeHandler(id string, before interface{}, after interface{})
 //@   requires o != nil && o.s != nil && muxOK(o.s.Mux) && !isNil(o.s.logger)
 //@   requires small: imp(typeIs(before, "[]store.Value"), len(unbox(before, "[]store.Value")) <= 1073741824) && imp(typeIs(after, "[]store.Value"), len(unbox(after, "[]store.Value")) <= 1073741824)
@@ -188,11 +235,19 @@ package store
 //@ func (o *queryHandler) getResult(q url.Values) (result interface{}, err error)
 //@   requires o != nil && !isNil(o.qs)
 //@   modifies alloc
+//@ ghostvar qrqname string
+//@ ghostvar qrqpp ref
+//@ ghostvar qrqq ref
 //@ func queryHandler.queryEvent$1(qreq res.QueryRequest)
 //@   requires o != nil && !isNil(qc) && o.qrh != nil && !isNil(o.qs)
-//@   modifies ghost.qqans, ghost.qqevn, alloc
+//@   modifies ghost.qqans, ghost.qqevn, ghost.qrqname, ghost.qrqpp, ghost.qrqq, alloc
 //@   may_panic
 //@   callback qrh qrhCB
+//@   # the query is the one of the REQUEST (name, path parameters and parsed query of qreq), not of the event's resource
+//@   ghost call QueryRequest.ResourceName#1 after :: set qrqname = arg_s
+//@   ghost call QueryRequest.PathParams#1 after :: set qrqpp = ref(arg_m)
+//@   ghost call QueryRequest.ParseQuery#1 after :: set qrqq = ref(arg_q)
+//@   ghost call qrhCB#1 before :: assert own.query: same(arg_rname, qrqname) && ref(arg_pathParams) == qrqpp && ref(arg_q) == qrqq
 //@   # the final nil call answers nothing; a request is answered at most once here (an error, or the full result when the
 //@   # change resets the query); otherwise exactly the (transformed) events of the change are added, and none when unaffected
 //@   ensures final: imp(isNil(qreq), qqans == old(qqans) && qqevn == old(qqevn))
